@@ -20,7 +20,7 @@ env = dict(os.environ, GOPROXY="off", GOSUMDB="off", GOTOOLCHAIN="local")
 
 def sh(cmd, cwd=None, e=env, timeout=3000):
     try:
-        p = subprocess.run(cmd, shell=True, cwd=cwd, env=e, stdout=subprocess.PIPE, stderr=subprocess.STDOUT, timeout=timeout)
+        p = subprocess.run(cmd, shell=True, executable="/bin/bash", cwd=cwd, env=e, stdout=subprocess.PIPE, stderr=subprocess.STDOUT, timeout=timeout)
         return p.returncode, p.stdout.decode("utf-8", "replace")
     except subprocess.TimeoutExpired:
         return 124, "timeout"
@@ -35,8 +35,13 @@ def place_demos(wt):
             txt = open(f).read()
             m = re.search(r"^package\s+(\w+)", txt, re.M)
             pkg = m.group(1) if m else "core"
-            pkgdir = {"core": "martian/core", "core_test": "martian/core", "syntax": "martian/syntax", "syntax_test": "martian/syntax",
-                      "refactoring": "martian/syntax/refactoring", "util": "martian/util", "main": "cmd/mrp"}.get(pkg, "martian/core")
+            base = pkg[:-5] if pkg.endswith("_test") else pkg
+            pkgdir = {"core": "martian/core", "syntax": "martian/syntax", "refactoring": "martian/syntax/refactoring",
+                      "util": "martian/util", "main": "cmd/mrp", "ast_builder": "martian/syntax/ast_builder",
+                      "api": "martian/api"}.get(base, "martian/core")
+            hint = re.search(r"(?:[Pp]lace|[Cc]opy|goes)[^\n]{0,60}?((?:martian|cmd)/[A-Za-z0-9_/]+)", txt)
+            if hint and os.path.isdir(os.path.join(wt, hint.group(1).rstrip("/"))) and base not in ("core", "syntax", "refactoring", "util"):
+                pkgdir = hint.group(1).rstrip("/")
             name = "seed_%s_%s_%s" % (pid.lower(), k, b if b != "demo_test.go" else "demo_test.go")
             shutil.copy(f, os.path.join(wt, pkgdir, name))
             placed.append(os.path.join(wt, pkgdir, name))
@@ -55,7 +60,7 @@ def run_demos(wt, gos, shs):
         ok = ok and passed
         outs.append(out[-1500:])
     for s in shs:
-        rc, out = sh("bash %s %s 2>&1 | tail -25" % (s, wt), cwd=wt, timeout=900)
+        rc, out = sh("set -o pipefail; bash %s %s 2>&1 | tail -25" % (s, wt), cwd=wt, timeout=900)
         ok = ok and rc == 0
         outs.append(out[-1500:])
     return ok, outs
